@@ -512,6 +512,94 @@ def _ec_length_guard(ctx) -> None:
     ctx.ok("R01.6", f"{V.short} :: {norm(t.ast)}", "length guard dominates the split; halves are complementary")
 
 
+# ----------------------------------------------------------------------------------------------- R01.7
+def r01_7(ctx) -> None:
+    """the payload part of every signing input is the payload that is returned: either the returned object's own `.payload`
+    field, or the received segment that the extractor pairs with it (payload = decode(S); segments['payload'] = S)"""
+    from ..terms import Terms, show, alts, K
+    eng = ctx.eng
+    T = Terms(eng)
+    n = 0
+    for s in _verify_sites(eng):
+        fn = s.fn
+        t = T.of(fn, s.node.args[0])
+        n += 1
+        inst = f"{fn.short} :: payload part of {norm(s.node)[:40]}"
+        if t[0] != "CAT" or K(b".") not in t[1]:
+            ctx.fail("R01.7", fn, s.node, f"signing input is not <header> '.' <payload>: {show(t)}", construct=f"signing input shape at {fn.short}")
+            continue
+        i = list(t[1]).index(K(b"."))
+        P = t[1][i + 1:]
+        ok = len(P) == 1
+        why = show(("CAT", tuple(P))) if len(P) != 1 else show(P[0])
+        if ok:
+            for a in alts(P[0]):
+                if a[0] != "LEAF":
+                    ok = False
+                    continue
+                leaf = a[1]
+                if leaf.endswith(".payload") or leaf.endswith(".segments['payload']"):
+                    continue
+                if leaf in fn.params:
+                    # every caller passes the paired segment
+                    for cs in eng.cg.callers.get(fn, []):
+                        arg = eng.cg.arg_for_param(cs, fn, leaf)
+                        ta = T.of(cs.fn, arg) if arg is not None else ("LEAF", "?")
+                        if not (ta[0] == "LEAF" and ta[1].endswith(".segments['payload']")):
+                            ok = False
+                            why = f"caller {cs.fn.short} passes {show(ta)}"
+                    continue
+                ok = False
+        ctx.check(ok, "R01.7", fn, s.node, inst, f"the payload octets that are verified ({why}) are not the returned object's payload field or its paired received segment: "
+                  "what is verified and what is returned can differ", "payload part = obj.payload / obj.segments['payload']", construct=f"verified payload at {fn.short}")
+    # modules whose verify sites check the returned object's own .payload field (a caller-supplied detached payload is then
+    # both what is verified and what is returned)
+    field_sites = set()
+    for s in _verify_sites(eng):
+        t = T.of(s.fn, s.node.args[0])
+        if t[0] == "CAT" and K(b".") in t[1]:
+            P0 = t[1][list(t[1]).index(K(b".")) + 1:]
+            if len(P0) == 1 and all(a[0] == "LEAF" and a[1].endswith(".payload") for a in alts(P0[0])):
+                field_sites.add(s.fn.module.short)
+    # extractor pairing
+    P_ = eng.prog
+    classes = [P_.cls("rfc7515.model:CompactSignature"), P_.cls("rfc7515.model:FlattenedJSONSignature"), P_.cls("rfc7515.model:GeneralJSONSignature")]
+    m = 0
+    scope = set()
+    for E in entries(eng, JWS_CONSUME):
+        scope.update(scope_of(eng, E))
+    for fn in sorted(scope, key=lambda f: f.qualname):
+        ctors = [c for c in eng.cg.calls_in(fn) if c.kind == "ctor" and isinstance(c.node, ast.Call) and any(eng.cg.class_by_fullname(x) in classes for x in c.recv_classes)]
+        if not ctors:
+            continue
+        segs = []
+        for node in fn_nodes(fn):
+            if isinstance(node, ast.Dict):
+                par = eng.prog.parent(node)
+                tgt_ok = (isinstance(par, ast.Assign) and norm(par.targets[0]).endswith(".segments")) or \
+                    (isinstance(par, ast.Call) and isinstance(par.func, ast.Attribute) and par.func.attr == "update" and norm(par.func.value).endswith(".segments"))
+                if tgt_ok:
+                    for k, v in zip(node.keys, node.values):
+                        if k is not None and const_value(k) == "payload":
+                            segs.append(v)
+        for c in ctors:
+            if len(c.node.args) < 2:
+                continue
+            m += 1
+            pt = T.of(fn, c.node.args[1])
+            good = bool(segs)
+            detached_ok = pt[0] == "LEAF" and pt[1] in fn.params and fn.module.short in field_sites
+            for sv in segs:
+                st = T.of(fn, sv)
+                pair = any(a == st or a == ("B64D", st) for a in alts(pt))
+                if not pair and not detached_ok:
+                    good = False
+            # a caller-supplied detached payload (RFC 7797) is returned *and* verified: it is obj.payload itself
+            ctx.check(good or not segs and False, "R01.7", fn, c.node, f"{fn.short} :: {norm(c.node)[:50]}", f"the extractor does not pair the returned payload ({show(pt)}) with the stored payload segment "
+                      f"({[show(T.of(fn, x)) for x in segs]})", "payload = [decode of] the stored payload segment", construct=f"payload pairing in {fn.short}")
+    ctx.count("R01.7", n + m, 8, "verify sites + extractor constructions")
+
+
 def run(ctx) -> None:
     fam = verify_family(ctx.eng)
     ctx.extra["verify_family"] = [f.short for f in fam]
@@ -522,5 +610,6 @@ def run(ctx) -> None:
     ctx.guard(r01_5)
     ctx.guard(r01_6)
     ctx.guard(_ec_length_guard)
+    ctx.guard(r01_7)
     ctx.assume("pyca/cryptography verify primitives reject every forged signature (unforgeability is trusted)")
     ctx.assume("receiver types as inferred by mypy; class-hierarchy analysis for dynamic dispatch")
